@@ -93,7 +93,10 @@ Arrive(l, t, cls, len, conn1, rejoin, stray) ==
     /\ conn' = conn1
     /\ tornSince' = [tornSince EXCEPT ![l] = IF len >= 2 /\ cls = "reg3" THEN FALSE ELSE @]
     /\ quietSince' = IF stray THEN t ELSE quietSince
-    /\ connAt' = IF stray THEN (\E k \in Links : conn1[k]) ELSE connAt
+    \* (a stray datagram that counts as hearing from the link starts the configured silence afresh for it: the sender
+    \*  may not re-create that link's socket before it has elapsed, connected or not -- so the bound allows for it)
+    /\ connAt' = IF stray THEN ((\E k \in Links : conn1[k]) \/ (len >= 2 /\ cls \notin {"reg2", "reg_ngp", "reg_err"}))
+                  ELSE connAt
     /\ UNCHANGED <<born, lastTry, upSince>>
 
 (* a send on l's socket fails during a flush: soft teardown (mark_for_recovery) *)
